@@ -137,6 +137,9 @@ class ListenHandler(BaseHandler):
                 try:
                     response = response.encode('latin-1')
                     self.socket.sendto(response, self.client_address)
+                except UnicodeEncodeError:
+                    # The response cannot be sent as single bytes, discard it
+                    logging.debug('unexpected response: %r', response)
                 except IOError:  # skip coverage
                     # Something went wrong while sending the response,
                     # probably the client was stopped without closing
